@@ -139,6 +139,9 @@ type Recorder struct {
 	tgtEndSeq  map[string]int // target shard -> event number of its latest stream end
 	srcViolLevel map[string]int64  // per source, within its current incarnation: highest ack already flagged ...
 	srcViolCause map[string]string // ... and the cause it was attributed to
+	srcOpenSeq     map[string]int   // source -> event number at which its current stream incarnation opened
+	srcPrevMaxHigh map[string]int64 // source -> highest exclusive high watermark announced by its EARLIER incarnations
+	tgtOpenSeq     map[string]int   // target stream incarnation -> event number of its opening
 	kindCount  map[string]int64
 	perStreamKind map[string]int
 	maxOutstandingTargets int
@@ -332,6 +335,13 @@ func (r *Recorder) SrcOpen(stream string) {
 	defer r.mu.Unlock()
 	src := baseOf(stream)
 	r.srcInc[src]++
+	if r.srcOpenSeq == nil {
+		r.srcOpenSeq, r.srcPrevMaxHigh = map[string]int{}, map[string]int64{}
+	}
+	r.srcOpenSeq[src] = len(r.Events)
+	if r.srcInc[src] > 1 {
+		r.srcPrevMaxHigh[src] = r.srcMaxHigh[src]
+	}
 	r.srcLastAck[src] = 0
 	delete(r.srcViolLevel, src)
 	delete(r.srcViolCause, src)
@@ -344,6 +354,12 @@ func (r *Recorder) Mark(kind, stream string) {
 	if kind == "TGT_END" {
 		r.tgtEnded[stream] = true
 		r.tgtEndSeq[baseOf(stream)] = len(r.Events)
+	}
+	if kind == "TGT_OPEN" {
+		if r.tgtOpenSeq == nil {
+			r.tgtOpenSeq = map[string]int{}
+		}
+		r.tgtOpenSeq[stream] = len(r.Events)
 	}
 	r.add(Event{Kind: kind, Stream: stream})
 }
@@ -406,6 +422,12 @@ func (r *Recorder) SrcAck(stream string, a int64) {
 			cause = "received-before-source-reconnect"
 		case t.fwdStream == "":
 			cause = "not-yet-forwarded"
+		case r.srcInc[src] > 1 && r.srcPrevMaxHigh[src] > t.orig && a <= r.srcPrevMaxHigh[src] && r.tgtOpenSeq[t.fwdStream] < r.srcOpenSeq[src]:
+			// The source reconnected; the target stream now holding the re-sent task was already open before
+			// that and had been handed a watermark above the task by the source's PREVIOUS incarnation
+			// (broadcast / replay to late targets). Its acknowledgement of that old entry is credited to
+			// the new incarnation although the re-sent task behind it is not confirmed yet.
+			cause = "stale-watermark-credit-after-source-reconnect"
 		default:
 			cause = "unconfirmed-on-live-target"
 		}
